@@ -191,8 +191,8 @@ def run(ctx):
             st = res.get('state')
             vals = set(subterms(st, lambda t: t[0] == 'app' and t[1] in ('Expand', 'Hash')))
             tops = set(k for k in vals if not any(k != o and contains(o, k) for o in vals))
-            row('R09.12', 'server: pending state = {Km3, Hash(preamble || server_mac), session_key}', tuple(sorted(tops, key=repr)),
-                tuple(sorted({ks['km3'], ks['hpre2'], ks['session_key']}, key=repr)), w, sn)
+            row('R09.12', 'server: pending state = {Km3, Hash(preamble || server_mac), session_key}', ('list', tuple(sorted(tops, key=repr))),
+                ('list', tuple(sorted({ks['km3'], ks['hpre2'], ks['session_key']}, key=repr))), w, sn)
             wire = an.ser(ctx, sn, DECODERS['CredentialResponse'], res.get('message'))
             if xs:
                 ke2 = [v for v in msg.values() if v is not None and v[0] == 'adt' and 'Ke2Message' in v[1]]
@@ -284,6 +284,8 @@ def run(ctx):
     rep.floor('R09', 'formula rows matched', rows, ns * 150)
     rep.ob('R09.LBL', 'all 13 RFC labels occur, by content, in matched formulas', len(labels_seen) == 13,
            'missing: %s' % [l for l in rfc.LABELS if l not in labels_seen], '', None)
+    from rules import profile
+    profile.check(ctx, rep, 'R09.P', ['creg_start', 'creg_finish', 'sreg_start', 'clog_start', 'clog_finish', 'slog_start'])
     return rep
 
 
